@@ -320,14 +320,14 @@ def fault_cls(ctx, e, depth):
     return exc_cls(e)
 
 
-def run_func(ctx, idx, b, target, arg, kw, is_root=False):
+def run_func(ctx, idx, b, target, arg, kw, is_root=False, rest=()):
     f = ctx.funcs[idx]
     if not is_root:
         ctx.inv.append([f['name'], ctx.rel(target) if target is not None else None,
-                        wire.enc([arg]), wire.enc(kw)])
+                        wire.enc([arg] + list(rest)), wire.enc(kw)])
     acc = [['v', canon(arg)], ['v', canon(kw)], ['v', canon(ctx.versions.get(f['name']))]]
     if (ctx.mutate or ctx.callee_mutates) and not is_root:
-        scramble(arg); scramble(kw)          # edge: arguments handed to the function (it may do with them what it likes)
+        scramble(arg); scramble(kw); [scramble(x) for x in rest]   # edge: arguments handed to the function (it may do with them what it likes)
     exec_stmts(ctx, f['stmts'], b, target, acc)
     r = f['ret']
     if r == 'acc':
@@ -392,27 +392,28 @@ def exec_stmts(ctx, stmts, b, target, acc):
                 acc.append(['e', type(e).__name__])
             ctx.query_log.append([kind, rel, extra, acc[-1]])
         elif k == 'bf':
-            _, rel, cmp_, callee, arg, kw, catch = st
+            _, rel, cmp_, callee, arg, kw, catch = st[:7]
+            extra = st[7] if len(st) > 7 else []      # further positional arguments (the callee ignores them)
             name = ctx.funcs[callee]['name']
 
             mine = {'started': False}
 
-            def body(bb, fn, a, /, *, _fbh_j=callee, _fbh_mine=mine, **kws):
+            def body(bb, fn, a, /, *_rest, _fbh_j=callee, _fbh_mine=mine, **kws):
                 _j, _mine = _fbh_j, _fbh_mine
                 _mine['started'] = True
                 if os.path.lexists(fn):
                     ctx.contract.append(['target-present-at-start', ctx.rel(fn)])
                 if fn != os.path.abspath(fn):
                     ctx.contract.append(['path-not-normalised', fn])
-                return run_func(ctx, _j, bb, fn, a, kws)
+                return run_func(ctx, _j, bb, fn, a, kws, rest=_rest)
             tgt = ctx.P(rel)
             ctx.call_stack.append(['bf', rel])
             depth = len(ctx.call_stack)
             try:
-                call_args = [dec_pyval(arg), dec_pyval(kw)]
+                call_args = [dec_pyval(arg), dec_pyval(kw)] + [dec_pyval(x) for x in extra]
                 try:
                     r = b.build_file_with_comparison(
-                        ctx.spell(tgt), ctx.cmp(cmp_), name, body, call_args[0], **call_args[1])
+                        ctx.spell(tgt), ctx.cmp(cmp_), name, body, call_args[0], *call_args[2:], **call_args[1])
                 finally:
                     del ctx.call_stack[depth - 1:]
                     if ctx.mutate:
@@ -433,18 +434,20 @@ def exec_stmts(ctx, stmts, b, target, acc):
                     raise
                 acc.append(['e', fault_cls(ctx, e, depth)])
         elif k == 'sb':
-            _, callee, arg, kw, catch = st
+            _, callee, arg, kw, catch = st[:5]
+            extra = st[5] if len(st) > 5 else []
             name = ctx.funcs[callee]['name']
 
-            def body(bb, a, /, *, _fbh_j=callee, **kws):
-                return run_func(ctx, _fbh_j, bb, None, a, kws)
-            ctx.call_stack.append(['sb', name, wire.enc([dec_pyval(arg)]) if _jsonable(dec_pyval(arg)) else None,
+            def body(bb, a, /, *_rest, _fbh_j=callee, **kws):
+                return run_func(ctx, _fbh_j, bb, None, a, kws, rest=_rest)
+            _pos = [dec_pyval(arg)] + [dec_pyval(x) for x in extra]
+            ctx.call_stack.append(['sb', name, wire.enc(_pos) if all(_jsonable(x) for x in _pos) else None,
                                    wire.enc(dec_pyval(kw))])
             depth = len(ctx.call_stack)
             try:
-                call_args = [dec_pyval(arg), dec_pyval(kw)]
+                call_args = [dec_pyval(arg), dec_pyval(kw)] + [dec_pyval(x) for x in extra]
                 try:
-                    r = b.subbuild(name, body, call_args[0], **call_args[1])
+                    r = b.subbuild(name, body, call_args[0], *call_args[2:], **call_args[1])
                 finally:
                     del ctx.call_stack[depth - 1:]
                     if ctx.mutate:
